@@ -40,6 +40,7 @@ func runC12(c *Ctx) {
 	c12Indexes(c)
 	c12NilableDerefs(c)
 	c12DecodedElements(c)
+	c12TestedParams(c)
 	c12MustCompile(c)
 	c12MapUpdates(c)
 	c12Panics(c)
